@@ -48,18 +48,18 @@ Fixpoint latest (id : N) (hist : list (N * tdata * N)) : option (tdata * N) :=
   | [] => None
   | (i, d, t) :: r => if N.eqb i id then Some (d, t) else latest id r
   end.
-Definition entry_ok (ttl : N) (hist : list (N * tdata * N)) (now : N) (m : msg) (e : N * N * tdata) : bool :=
+Definition entry_ok (vw : msg -> tdata -> tdata) (ttl : N) (hist : list (N * tdata * N)) (now : N) (m : msg) (e : N * N * tdata) : bool :=
   let '(ch, sq, d) := e in
   N.eqb ch (m_chain m) && N.eqb sq (m_seq m) &&
-  (tdata_eqb d (initial_td m) ||
+  (tdata_eqb d (vw m (initial_td m)) ||
    match latest (m_id m) hist with
-   | Some (d', t) => tdata_eqb d d' && sup_ready d && N.leb now (t + ttl)   (* fetched, all supported ready, not expired *)
+   | Some (d', t) => tdata_eqb d (vw m d') && sup_ready d' && N.leb now (t + ttl)   (* fetched, all supported ready, not expired *)
    | None => false
    end).
-Fixpoint entries_ok (ttl : N) hist now (ms : list msg) (es : list (N * N * tdata)) : bool :=
+Fixpoint entries_ok vw (ttl : N) hist now (ms : list msg) (es : list (N * N * tdata)) : bool :=
   match ms, es with
   | [], [] => true
-  | m :: ms', e :: es' => entry_ok ttl hist now m e && entries_ok ttl hist now ms' es'
+  | m :: ms', e :: es' => entry_ok vw ttl hist now m e && entries_ok vw ttl hist now ms' es'
   | _, _ => false      (* not one entry per message *)
   end.
 Definition add_seen (seen : list N) (ms : list msg) : list N :=
@@ -75,39 +75,129 @@ Fixpoint next_probe (evs : list bev) (outs : list bout) : option (list N * list 
 (* safety form of "every message asked for is eventually fetched": once Observe has answered and the idle workers have
    picked up what they can, a message asked for is served from the cache, or waits in the queue, or is being fetched -
    never silently dropped *)
-Definition accounted (ttl : N) (hist : list (N * tdata * N)) (now : N) (q f : list N) (m : msg) (e : N * N * tdata) : bool :=
-  negb (tdata_eqb (snd e) (initial_td m)) || memN (m_id m) q || memN (m_id m) f ||
+Definition accounted (vw : msg -> tdata -> tdata) (ttl : N) (hist : list (N * tdata * N)) (now : N) (q f : list N) (m : msg) (e : N * N * tdata) : bool :=
+  negb (tdata_eqb (snd e) (vw m (initial_td m))) || memN (m_id m) q || memN (m_id m) f ||
   match latest (m_id m) hist with       (* cached data that looks exactly like the placeholder *)
-  | Some (d', t) => tdata_eqb d' (initial_td m) && N.leb now (t + ttl)
+  | Some (d', t) => tdata_eqb (vw m d') (vw m (initial_td m)) && N.leb now (t + ttl)
   | None => false
   end.
-Fixpoint all_accounted ttl hist now q f (ms : list msg) (es : list (N * N * tdata)) : bool :=
+Fixpoint all_accounted vw ttl hist now q f (ms : list msg) (es : list (N * N * tdata)) : bool :=
   match ms, es with
-  | m :: ms', e :: es' => accounted ttl hist now q f m e && all_accounted ttl hist now q f ms' es'
+  | m :: ms', e :: es' => accounted vw ttl hist now q f m e && all_accounted vw ttl hist now q f ms' es'
   | _, _ => true
   end.
-Fixpoint walk_ok (w ttl : N) (seen : list N) (hist : list (N * tdata * N)) (evs : list bev) (outs : list bout) : bool :=
+(* may this Observe answer with an error? never for the background observer alone; the composite refuses to merge
+   cached data whose slot count differs from the message's token count *)
+Definition err_allowed (strict : bool) (ttl : N) (hist : list (N * tdata * N)) (now : N) (ms : list msg) : bool :=
+  negb strict &&
+  existsb (fun m => match latest (m_id m) hist with
+                    | Some (d', t) => N.leb now (t + ttl) && negb (Nat.eqb (length d') (length (m_sup m)))
+                    | None => false end) ms.
+Fixpoint walk_ok (strict : bool) (vw : msg -> tdata -> tdata) (w ttl : N) (seen : list N) (hist : list (N * tdata * N)) (evs : list bev) (outs : list bout) : bool :=
   match evs, outs with
   | [], [] => true
   | BObserve ms now :: e', OObs r :: o' =>
       match r with
-      | Done es => entries_ok ttl hist now ms es &&    (* answered at once, mirrored structure, ready-only, not expired *)
+      | Done es => entries_ok vw ttl hist now ms es &&    (* answered at once, mirrored structure, ready-only, not expired *)
                    match next_probe e' o' with
-                   | Some (q, f) => all_accounted ttl hist now q f ms es
+                   | Some (q, f) => all_accounted vw ttl hist now q f ms es
                    | None => true
                    end
-      | _ => false                                     (* blocked, or internal error *)
-      end && walk_ok w ttl (add_seen seen ms) hist e' o'
+      | ObsErr => err_allowed strict ttl hist now ms
+      | Blocked => false
+      end && walk_ok strict vw w ttl (add_seen seen ms) hist e' o'
   | BReturn id (FOk d) now :: e', _ :: o' =>
-      walk_ok w ttl seen (if sup_ready d then (id, d, now) :: hist else hist) e' o'
-  | BTake _ :: e', OTake t f :: o' => t && f && walk_ok w ttl seen hist e' o'      (* only waiting messages, oldest call first *)
+      walk_ok strict vw w ttl seen (if sup_ready d then (id, d, now) :: hist else hist) e' o'
+  | BTake _ :: e', OTake t f :: o' => t && f && walk_ok strict vw w ttl seen hist e' o'      (* only waiting messages, oldest call first *)
   | BProbe :: e', OProbe q f :: o' =>
       (match q with [] => true | _ => N.leb w (N.of_nat (length f)) end) &&
-      Nat.leb (length q) (length seen) && nodupb N.eqb q && walk_ok w ttl seen hist e' o'   (* no idle worker while messages wait *)
-  | _ :: e', _ :: o' => walk_ok w ttl seen hist e' o'
+      Nat.leb (length q) (length seen) && nodupb N.eqb q && walk_ok strict vw w ttl seen hist e' o'   (* no idle worker while messages wait *)
+  | _ :: e', _ :: o' => walk_ok strict vw w ttl seen hist e' o'
   | _, _ => false
   end.
 Definition bg_ok (i : bg_in) (o : bg_out) : bool :=
   let '(w, ttl, evs) := i in
-  walk_ok w ttl [] [] evs (fst o) && fst (snd o) && snd (snd o).
+  walk_ok true (fun _ d => d) w ttl [] [] evs (fst o) && fst (snd o) && snd (snd o).
 Definition bg_judge := judge bg_model bg_oeqb bg_ok (fun _ => 0%N).
+
+(* =====================================================================================================
+   part comp: the same schedules driven through NewCompositeObservers(NewBackgroundObserver(gated observer)).
+   compositeTokenDataObserver.Observe = initTokenDataObservations + merge of the child's answer:
+   a token no child supports is a ready no-op, a supported token shows the child's slot if the child marks it supported,
+   else "not ready"; a child answer with another slot count than the message makes the whole call fail. *)
+Fixpoint comp_slots (sup : list bool) (d : tdata) : tdata :=
+  match sup, d with
+  | s :: sup', t :: d' =>
+      (if s then (if t_sup t then t else mkT false true 0) else mkT true true 0) :: comp_slots sup' d'
+  | _, _ => []
+  end.
+Definition comp_view (m : msg) (d : tdata) : tdata := comp_slots (m_sup m) d.
+Fixpoint comp_entries (ms : list msg) (es : list (N * N * tdata)) : option (list (N * N * tdata)) :=
+  match ms, es with
+  | [], [] => Some []
+  | m :: ms', (ch, sq, d) :: es' =>
+      if Nat.eqb (length d) (length (m_sup m)) then
+        match comp_entries ms' es' with Some r => Some ((ch, sq, comp_view m d) :: r) | None => None end
+      else None
+  | _, _ => None
+  end.
+Fixpoint comp_outs (evs : list bev) (outs : list bout) : list bout :=
+  match evs, outs with
+  | BObserve ms _ :: e', OObs (Done es) :: o' =>
+      OObs (match comp_entries ms es with Some r => Done r | None => ObsErr end) :: comp_outs e' o'
+  | _ :: e', o :: o' => o :: comp_outs e' o'
+  | _, _ => []
+  end.
+(* output: observations, (Close returned, no goroutine left), IsTokenSupported passes through *)
+Definition comp_out := (list bout * (bool * bool) * bool)%type.
+Definition comp_model (i : bg_in) : comp_out :=
+  let '(w, ttl, evs) := i in
+  let '(outs, fin) := bg_model i in (comp_outs evs outs, fin, true).
+Definition comp_oeqb (a b : comp_out) : bool := bg_oeqb (fst a) (fst b) && Bool.eqb (snd a) (snd b).
+Definition comp_ok (i : bg_in) (o : comp_out) : bool :=
+  let '(w, ttl, evs) := i in
+  walk_ok false comp_view w ttl [] [] evs (fst (fst o)) && fst (snd (fst o)) && snd (snd (fst o)) && snd o.
+Definition comp_judge := judge comp_model comp_oeqb comp_ok (fun _ => 0%N).
+
+(* =====================================================================================================
+   part ctor: NewConfigBasedCompositeObservers on a USDC/CCTP observer configuration.
+   input: (NumWorkers, CacheExpirationInterval, CacheCleanupInterval, ObserveTimeout) in ms;
+   output: (a background observer was built, its worker count, goroutines it started,
+            its expiry, the cleanup period measured on its cache, its observe timeout,
+            goroutines left after Close of the composite) *)
+Definition ctor_in := (N * N * N * N)%type.
+Definition ctor_out := (bool * N * N * N * N * N * N)%type.
+Definition ctor_model (i : ctor_in) : ctor_out :=
+  let '(w, e, c, t) := i in
+  if N.eqb w 0 then (false, 0, 0, 0, 0, 0, 0)%N else (true, w, w + 1, e, c, t, 0)%N.
+Definition ctor_oeqb (a b : ctor_out) : bool :=
+  let '(a1, a2, a3, a4, a5, a6, a7) := a in
+  let '(b1, b2, b3, b4, b5, b6, b7) := b in
+  Bool.eqb a1 b1 && N.eqb a2 b2 && N.eqb a3 b3 && N.eqb a4 b4 && N.eqb a5 b5 && N.eqb a6 b6 && N.eqb a7 b7.
+(* the configuration is the specification: background iff workers are configured, every interval where it belongs *)
+Definition ctor_ok (i : ctor_in) (o : ctor_out) : bool := ctor_oeqb (ctor_model i) o.
+Definition ctor_judge := judge ctor_model ctor_oeqb ctor_ok (fun _ => 0%N).
+
+(* =====================================================================================================
+   part plugin: execute.Plugin.getMessagesObservation over composite(background(gated observer)), called before and
+   after the gate opens, then Plugin.Close.
+   input: (workers, messages, the token data the underlying observer answers per message);
+   output: (first answer, answer once every fetch has returned, fetches performed, Close returned, no goroutine left) *)
+Definition plug_in := (N * list msg * list tdata)%type.
+Definition plug_out := (bout * bout * N * bool * bool)%type.
+Fixpoint plug_entries (ms : list msg) (ds : list tdata) (fetched : bool) : list (N * N * tdata) :=
+  match ms, ds with
+  | m :: ms', d :: ds' =>
+      (m_chain m, m_seq m, comp_view m (if fetched && sup_ready d then d else initial_td m)) :: plug_entries ms' ds' fetched
+  | _, _ => []
+  end.
+Definition plug_model (i : plug_in) : plug_out :=
+  let '(w, ms, ds) := i in
+  (OObs (Done (plug_entries ms ds false)), OObs (Done (plug_entries ms ds true)), N.of_nat (length ms), true, true).
+Definition plug_oeqb (a b : plug_out) : bool :=
+  let '(a1, a2, a3, a4, a5) := a in
+  let '(b1, b2, b3, b4, b5) := b in
+  bout_eqb a1 b1 && bout_eqb a2 b2 && N.eqb a3 b3 && Bool.eqb a4 b4 && Bool.eqb a5 b5.
+(* the round is never held up, every message is fetched exactly once, only fetched ready data is reported, Close cleans up *)
+Definition plug_ok (i : plug_in) (o : plug_out) : bool := plug_oeqb (plug_model i) o.
+Definition plug_judge := judge plug_model plug_oeqb plug_ok (fun _ => 0%N).
